@@ -30,6 +30,9 @@ typedef struct {
 	nni_list          conaios;
 	nni_mtx           mtx;
 	nni_resolv_item   resolv;
+	bool              resolving; // resaio is in flight
+	bool              connecting; // conaio is in flight
+	bool              aborted; // the step in flight was aborted by a cancel
 } tcp_dialer;
 
 static void
@@ -43,8 +46,18 @@ tcp_dial_cancel(nni_aio *aio, void *arg, nng_err rv)
 		nni_aio_finish_error(aio, rv);
 
 		if (nni_list_empty(&d->conaios)) {
-			nni_aio_abort(&d->conaio, NNG_ECANCELED);
-			nni_aio_abort(&d->resaio, NNG_ECANCELED);
+			// Nobody wants the step that is in flight any more.
+			// Its result (whatever it turns out to be) must not
+			// be handed to a dial that is submitted later, and
+			// an aio that is idle must not be aborted (that would
+			// fail its next use).
+			if (d->connecting) {
+				d->aborted = true;
+				nni_aio_abort(&d->conaio, NNG_ECANCELED);
+			} else if (d->resolving) {
+				d->aborted = true;
+				nni_aio_abort(&d->resaio, NNG_ECANCELED);
+			}
 		}
 	}
 	nni_mtx_unlock(&d->mtx);
@@ -53,9 +66,12 @@ tcp_dial_cancel(nni_aio *aio, void *arg, nng_err rv)
 static void
 tcp_dial_start_next(tcp_dialer *d)
 {
-	if (nni_list_empty(&d->conaios)) {
+	// One resolve / connect at a time: a dial submitted while the step
+	// of a cancelled one is still in flight waits for it to drain.
+	if (d->resolving || d->connecting || nni_list_empty(&d->conaios)) {
 		return;
 	}
+	d->resolving = true;
 	memset(&d->resolv, 0, sizeof(d->resolv));
 	d->resolv.ri_family  = d->af;
 	d->resolv.ri_passive = false;
@@ -74,12 +90,22 @@ tcp_dial_res_cb(void *arg)
 	int         rv;
 
 	nni_mtx_lock(&d->mtx);
+	d->resolving = false;
 	if (d->closed || ((aio = nni_list_first(&d->conaios)) == NULL)) {
 		// ignore this.
+		d->aborted = false;
 		while ((aio = nni_list_first(&d->conaios)) != NULL) {
 			nni_list_remove(&d->conaios, aio);
 			nni_aio_finish_error(aio, NNG_ECLOSED);
 		}
+		nni_mtx_unlock(&d->mtx);
+		return;
+	}
+	if (d->aborted) {
+		// This answer was for a dial that has been cancelled; the
+		// one now at the head was submitted later.  Start over.
+		d->aborted = false;
+		tcp_dial_start_next(d);
 		nni_mtx_unlock(&d->mtx);
 		return;
 	}
@@ -92,6 +118,7 @@ tcp_dial_res_cb(void *arg)
 		tcp_dial_start_next(d);
 
 	} else {
+		d->connecting = true;
 		nni_tcp_dial(d->d, &d->sa, &d->conaio);
 	}
 
@@ -106,14 +133,21 @@ tcp_dial_con_cb(void *arg)
 	int         rv;
 
 	nni_mtx_lock(&d->mtx);
-	rv = nni_aio_result(&d->conaio);
-	if ((d->closed) || ((aio = nni_list_first(&d->conaios)) == NULL)) {
+	rv            = nni_aio_result(&d->conaio);
+	d->connecting = false;
+	if ((d->closed) || (d->aborted) ||
+	    ((aio = nni_list_first(&d->conaios)) == NULL)) {
 		if (rv == 0) {
 			// Make sure we discard the underlying connection.
 			nng_stream_close(nni_aio_get_output(&d->conaio, 0));
 			nng_stream_stop(nni_aio_get_output(&d->conaio, 0));
 			nng_stream_free(nni_aio_get_output(&d->conaio, 0));
 			nni_aio_set_output(&d->conaio, 0, NULL);
+		}
+		if (d->aborted && !d->closed) {
+			// (see tcp_dial_res_cb: serve the later dials afresh)
+			d->aborted = false;
+			tcp_dial_start_next(d);
 		}
 		nni_mtx_unlock(&d->mtx);
 		return;
